@@ -50,6 +50,14 @@ def main(tier, seed):
                 return [(i, (0 if (i // 2) % 3 else 3, ts_order[(i // 2) % len(ts_order)] if (i // 2) % 3 else ''))
                         for i, _c in ctxs]
             cases.append((calls, TS[:3], 16384, fn, 16384, []))
+    for n in (1, 2, 3):                                    # one class in two contexts (SCU and SCP), both answered
+        shared = classes(7, n)
+        for pat in ((0, 0), (0, 3), (3, 0)):
+            def fn2(ctxs, ts_order, pat=pat, n=n):
+                return [(i, (pat[0 if k < n else 1], ts_order[k % len(ts_order)] if pat[0 if k < n else 1] == 0 else ''))
+                        for k, (i, _c) in enumerate(ctxs)]
+            cases.append(([('scu', shared), ('scp', shared)], TS[:2], 16384, fn2, 16384, []))
+            cases.append(([('scp', shared), ('scu', shared + classes(8, 1))], TS[:2], 16384, fn2, 16384, []))
     for _ in range(30 if tier == 'quick' else 300):       # seeded random
         n_calls = rng.randint(1, 4)
         calls = [(rng.choice(['scu', 'scp']), classes(k + 1, rng.randint(1, 30))) for k in range(n_calls)]
